@@ -543,6 +543,11 @@ func (db *SpecDB) loadFile(path string, pkgPath string, marker bool) error {
 					}
 				}
 				c.Kind = kw
+				for _, prev := range cur.Asserts {
+					if prev.Name == c.Name {
+						return fmt.Errorf("%s: label %q is used twice in the contract of %s", where, c.Name, cur.Func)
+					}
+				}
 				cur.Asserts = append(cur.Asserts, c)
 			case "using":
 				c, err := mkExprClause("using", rest)
